@@ -45,7 +45,7 @@ use crate::val;
 const HANG_SECS: u64 = 20;
 const ALLOC_CAP: usize = 1 << 30; // single requests above this are refused in workers
 const ALLOC_BASE: usize = 4 << 20; // allowed: ALLOC_BASE + ALLOC_FACTOR * input length
-const ALLOC_FACTOR: usize = 1024;
+const ALLOC_FACTOR: usize = 4096;
 const RLIMIT_AS_BYTES: u64 = 6 << 30;
 const JOB_STACK: usize = 8 << 20;
 
@@ -71,34 +71,36 @@ thread_local! {
 fn site_from_backtrace() -> String {
     let bt = std::backtrace::Backtrace::force_capture();
     let text = format!("{bt}");
-    for line in text.lines() {
-        let l = line.trim();
-        // frame lines look like `12: rbx_binary::chunk::Chunk::decode`
-        let sym = match l.split_once(": ") {
-            Some((n, s)) if n.chars().all(|c| c.is_ascii_digit()) => s,
-            _ => continue,
-        };
-        for (pat, short) in [("rbx_binary::", "bin"), ("rbx_xml::", "xml"), ("rbx_types::", "types"), ("rbx_dom_weak::", "dom"), ("xml::", "xmlrs"), ("lz4::", "lz4"), ("zstd::", "zstd")] {
-            if let Some(p) = sym.find(pat) {
-                if sym.contains("rbxverif::") {
-                    continue;
-                }
-                // strip generics, keep the last two path components
-                let mut s = String::new();
-                let mut depth = 0;
-                for c in sym[p..].chars() {
-                    match c {
-                        '<' => depth += 1,
-                        '>' => depth -= 1,
-                        _ if depth == 0 => s.push(c),
-                        _ => {}
+    // first frame inside one of the rbx crates; failing that, the first frame inside a codec dependency
+    for pats in [&[("rbx_binary::", "bin"), ("rbx_xml::", "xml"), ("rbx_types::", "types"), ("rbx_dom_weak::", "dom")][..], &[("xml::", "xmlrs"), ("lz4::", "lz4"), ("zstd::", "zstd")][..]] {
+        for line in text.lines() {
+            let l = line.trim();
+            // frame lines look like `12: rbx_binary::chunk::Chunk::decode`
+            let sym = match l.split_once(": ") {
+                Some((n, s)) if !n.is_empty() && n.chars().all(|c| c.is_ascii_digit()) => s,
+                _ => continue,
+            };
+            if sym.contains("rbxverif::") {
+                continue;
+            }
+            for (pat, short) in pats {
+                if let Some(p) = sym.find(pat) {
+                    // strip generics, keep the last two path components
+                    let mut s = String::new();
+                    let mut depth = 0;
+                    for c in sym[p..].chars() {
+                        match c {
+                            '<' => depth += 1,
+                            '>' => depth -= 1,
+                            _ if depth == 0 => s.push(c),
+                            _ => {}
+                        }
                     }
+                    let comps: Vec<&str> = s.split("::").filter(|c| !c.is_empty() && !c.starts_with('{') && !(c.len() == 17 && c.starts_with('h'))).collect();
+                    let n = comps.len();
+                    let tail = if n >= 2 { format!("{}-{}", comps[n - 2], comps[n - 1]) } else { comps.join("-") };
+                    return format!("{short}-alloc-{}", slug_d(&tail.to_lowercase(), 48));
                 }
-                let comps: Vec<&str> = s.split("::").filter(|c| !c.is_empty() && !c.starts_with('{')).collect();
-                let comps: Vec<&str> = comps.into_iter().filter(|c| !(c.len() == 17 && c.starts_with('h'))).collect();
-                let n = comps.len();
-                let tail = if n >= 2 { format!("{}-{}", comps[n - 2], comps[n - 1]) } else { comps.join("-") };
-                return format!("{short}-alloc-{}", slug(&tail.to_lowercase(), 48));
             }
         }
     }
@@ -193,10 +195,16 @@ static GLOBAL: CountingAlloc = CountingAlloc;
 // ================================================================================ small helpers
 
 fn slug(s: &str, max: usize) -> String {
+    slug_x(s, max, false)
+}
+fn slug_d(s: &str, max: usize) -> String {
+    slug_x(s, max, true)
+}
+fn slug_x(s: &str, max: usize, digits: bool) -> String {
     let mut out = String::new();
     let mut dash = true;
     for c in s.chars() {
-        if c.is_ascii_alphabetic() || c == '_' {
+        if c.is_ascii_alphabetic() || c == '_' || (digits && c.is_ascii_digit()) {
             out.push(c.to_ascii_lowercase());
             dash = false;
         } else if !dash {
@@ -223,7 +231,7 @@ fn fnv(bytes: &[u8]) -> u64 {
 }
 
 fn one_line(s: &str, max: usize) -> String {
-    let mut t: String = s.chars().map(|c| if c == '\n' || c == '\t' || c == '\r' { ' ' } else { c }).collect();
+    let mut t: String = s.chars().map(|c| if c == '\n' || c == '\t' || c == '\r' { ' ' } else if c.is_control() { '?' } else { c }).collect();
     if t.len() > max {
         let mut k = max;
         while !t.is_char_boundary(k) {
@@ -277,7 +285,7 @@ fn source_line(file: &str, line: u32) -> Option<String> {
 /// message; `file:line` only when the source cannot be read.
 fn panic_key(file: &str, line: u32, msg: &str) -> String {
     let src = source_line(file, line).unwrap_or_default();
-    let table: [(&str, &str, &str, &str); 12] = [
+    let table: [(&str, &str, &str, &str); 14] = [
         // (file suffix, needle in source line, needle in message, key)
         ("chunk.rs", "assert_eq!(data.len()", "", "bin-chunk-assert-len"),
         ("chunk.rs", "compressed_data[0..4]", "", "bin-chunk-slice-0-4"),
@@ -291,6 +299,8 @@ fn panic_key(file: &str, line: u32, msg: &str) -> String {
         ("", "", "capacity overflow", "std-capacity-overflow"),
         ("", "", "Hash table capacity overflow", "std-hashtable-capacity-overflow"),
         ("content.rs", "todo!()", "", "xml-content-object-todo"),
+        ("core.rs", "*referent += last", "", "bin-referent-add-overflow"),
+        ("unique_id.rs", "from_str_radix(&s[", "", "types-uniqueid-fromstr-char-boundary"),
     ];
     for (f, s, m, key) in table {
         if file.ends_with(f) && (s.is_empty() || src.contains(s)) && (m.is_empty() || msg.contains(m)) && !(s.is_empty() && m.is_empty()) {
@@ -730,7 +740,6 @@ pub fn fixed_doms() -> Vec<(String, WeakDom)> {
             .with_property("VerifUDim", UDim::new(0.5, -3))
             .with_property("VerifRect", Rect::new(Vector2::new(0.0, 0.0), Vector2::new(1.0, 1.0)))
             .with_property("VerifEnum", Enum::from_u32(u32::MAX))
-            .with_property("VerifColor3uint8", Color3uint8::new(0, 128, 255))
             .with_property("VerifOptCFrameNone", Variant::OptionalCFrame(None))]),
     ));
     // 11: three roots of one class with different property sets (columns filled from defaults)
@@ -1085,7 +1094,7 @@ fn cat(parts: &[Vec<u8>]) -> Vec<u8> {
     parts.concat()
 }
 
-pub const CRAFT_COUNT: usize = 34;
+pub const CRAFT_COUNT: usize = 37;
 pub fn crafted_bin(n: usize) -> (&'static str, Vec<u8>) {
     let h = raw_header(1, 2);
     let inst = inst_chunk(0, "Folder", &[0, 1]);
@@ -1155,6 +1164,21 @@ pub fn crafted_bin(n: usize) -> (&'static str, Vec<u8>) {
             ("inst-class-name-length-ffffffff", cat(&[h, plain_chunk(b"INST", &d), e]))
         }
         32 => ("lz4-claims-7fffffff", cat(&[h, raw_chunk(b"INST", 5, 0x7fff_ffff, 0, &[0x10, 0x41, 0x01, 0x00, 0x00]), e])),
+        34 | 35 | 36 => {
+            // Content column (type 0x22) whose source types ask for more URIs / objects than are listed
+            let inst2 = inst_chunk(0, "ImageLabel", &[0, 1]);
+            let mut d = 0u32.to_le_bytes().to_vec();
+            d.extend(bstr(b"ImageContent"));
+            d.push(0x22);
+            d.extend(interleave_i32(if n == 35 { &[2, 0] } else { &[1, 0] }));
+            d.extend(0u32.to_le_bytes()); // uri count
+            d.extend(0u32.to_le_bytes()); // object count
+            if n != 36 {
+                d.extend(0u32.to_le_bytes()); // external count
+            }
+            let label = ["content-uri-missing", "content-object-missing", "content-external-count-missing"][n - 34];
+            (label, cat(&[h, inst2, names, plain_chunk(b"PROP", &d), good_prnt, e]))
+        }
         _ => ("zstd-claims-7fffffff", cat(&[h, raw_chunk(b"INST", 9, 0x7fff_ffff, 0, &[0x28, 0xb5, 0x2f, 0xfd, 0x20, 0x00, 0x01, 0x00, 0x00]), e])),
     }
 }
@@ -1382,4 +1406,1087 @@ fn nested_bin(depth: usize) -> Vec<u8> {
     cat(&[raw_header(1, depth as u32), inst_chunk(0, "Folder", &refs), name_chunk(0, &names), prnt_chunk(0, depth as u32, &refs, &parents), end_chunk()])
 }
 
-// @@PART4
+// ================================================================================ jobs -> inputs
+
+fn file_fmt(ffmt: &str) -> &str {
+    if ffmt == "xmlu" {
+        "xml"
+    } else {
+        ffmt
+    }
+}
+
+pub const SPLICE_OPS: usize = 10;
+
+fn splice(fx: &Fixed, ffmt: &str, file: usize, op: usize, a: usize, b: usize) -> Vec<u8> {
+    let raw = &fx.files[ffmt][file];
+    let mut f = bin_parse(raw);
+    let n = f.chunks.len();
+    let a = a % n;
+    match op {
+        0 => {
+            f.chunks.remove(a);
+        }
+        1 => {
+            let c = f.chunks[a].clone();
+            f.chunks.insert(a, c);
+        }
+        2 => f.chunks.swap(a, b % n),
+        3 => f.chunks[a].0 = CHUNK_NAMES[b % CHUNK_NAMES.len()],
+        4 => {
+            let l = f.chunks[a].1.len();
+            f.chunks[a].1.truncate(l.saturating_sub(1 + b));
+        }
+        5 => {
+            let c = f.chunks.remove(a);
+            f.chunks.push(c);
+        }
+        6 => {
+            let p = f.chunks[b % n].1.clone();
+            f.chunks[a].1 = p;
+        }
+        7 => {
+            let other = bin_parse(&fx.files[ffmt][(file + 1) % fx.count(ffmt)]);
+            let c = other.chunks[b % other.chunks.len()].clone();
+            f.chunks.insert(a, c);
+        }
+        8 => {
+            // raw cut inside the stored payload, header fields untouched
+            let (s, total) = f.raw_spans[a];
+            let cut = (1 + b).min(total - 16);
+            let mut out = raw[..s + total - cut].to_vec();
+            out.extend_from_slice(&raw[s + total..]);
+            return out;
+        }
+        _ => f.chunks[a].1.clear(),
+    }
+    bin_build(&f, ffmt)
+}
+
+fn random_input(dfmt: &str, kind: u64, rng: &mut Rng) -> Vec<u8> {
+    let n = rng.below(200) as usize;
+    let mut body: Vec<u8> = (0..n).map(|_| rng.next() as u8).collect();
+    match (dfmt, kind % 4) {
+        ("bin", 1) => {
+            let mut h = raw_header(rng.below(4) as u32, rng.below(4) as u32);
+            h.extend(body);
+            h
+        }
+        ("bin", 2) | ("bin", 3) => {
+            // valid header, then chunks with valid names and random payloads
+            let mut out = raw_header(rng.below(3) as u32, rng.below(3) as u32);
+            for _ in 0..rng.range(1, 4) {
+                let name = CHUNK_NAMES[rng.below(6) as usize];
+                let m = rng.below(40) as usize;
+                let p: Vec<u8> = (0..m).map(|_| if rng.chance(60) { rng.below(4) as u8 } else { rng.next() as u8 }).collect();
+                out.extend(plain_chunk(&name, &p));
+            }
+            if kind % 4 == 3 {
+                out.extend(end_chunk());
+            }
+            out
+        }
+        ("attr", 1) | ("attr", 2) => {
+            // plausible blob: count, then (key, type, bytes)
+            let mut out = (rng.below(4) as u32).to_le_bytes().to_vec();
+            for _ in 0..rng.below(4) {
+                out.extend(bstr(b"k"));
+                out.push(rng.below(0x22) as u8);
+                let m = rng.below(30) as usize;
+                out.extend((0..m).map(|_| if rng.chance(50) { rng.below(3) as u8 } else { rng.next() as u8 }));
+            }
+            out
+        }
+        ("xml", 1) | ("xmlu", 1) => {
+            let mut out = b"<roblox version=\"4\">".to_vec();
+            for b in body.iter_mut() {
+                *b = b"<>/\"= ItemPropertiesstringname&;#x0123 \n"[(*b as usize) % 40];
+            }
+            out.extend(body);
+            out
+        }
+        _ => body,
+    }
+}
+
+/// job line -> (replay format, payload)
+pub fn materialize(job: &str, fx: &Fixed) -> Result<(String, Vec<u8>), String> {
+    let t: Vec<&str> = job.split_whitespace().collect();
+    let num = |i: usize| -> Result<u64, String> { t.get(i).ok_or("short job")?.parse::<u64>().map_err(|e| format!("job field {i}: {e}")) };
+    let kind = *t.first().ok_or("empty job")?;
+    match kind {
+        "replay" => Ok((t.get(1).ok_or("replay: format")?.to_string(), val::unhex(t.get(2).copied().unwrap_or("-"))?)),
+        "trunc" => {
+            let ffmt = t[1];
+            let b = &fx.files[ffmt][num(2)? as usize];
+            Ok((format!("trunc-{}", dfmt_of(ffmt)), b[..(num(3)? as usize).min(b.len())].to_vec()))
+        }
+        "deliv" => {
+            let ffmt = t[1];
+            let mut b = fx.files[file_fmt(ffmt)][num(2)? as usize].clone();
+            let mseed = num(3)?;
+            if mseed != 0 {
+                let mut rng = Rng::new(mseed);
+                if rng.chance(50) {
+                    flip_bits(&mut b, &mut rng)
+                } else {
+                    subst_bytes(&mut b, &mut rng)
+                }
+                if rng.chance(25) {
+                    let k = rng.below(b.len() as u64 + 1) as usize;
+                    b.truncate(k);
+                }
+            }
+            let mut p = vec![num(4)? as u8];
+            p.extend(num(5)?.to_be_bytes());
+            p.extend(b);
+            Ok((format!("deliv-{}", dfmt_of(ffmt)), p))
+        }
+        "sink" => {
+            let mut p = vec![num(3)? as u8, num(2)? as u8];
+            p.extend(be32(num(4)? as u32));
+            p.extend((num(4)? ^ 0x51ed).to_be_bytes());
+            Ok((format!("sink-{}", t[1]), p))
+        }
+        "flip" | "subst" => {
+            let ffmt = t[1];
+            let mut b = fx.files[file_fmt(ffmt)][num(2)? as usize].clone();
+            let mut rng = Rng::new(num(3)?);
+            if kind == "flip" {
+                flip_bits(&mut b, &mut rng)
+            } else {
+                subst_bytes(&mut b, &mut rng)
+            }
+            Ok((dfmt_of(ffmt).to_string(), b))
+        }
+        "len" => {
+            let ffmt = t[1];
+            let raw = &fx.files[ffmt][num(2)? as usize];
+            let off = num(4)? as usize;
+            let vi = num(5)? as usize;
+            if t[3] == "raw" {
+                let mut b = raw.clone();
+                edit_u32(&mut b, off, vi);
+                Ok((dfmt_of(ffmt).to_string(), b))
+            } else {
+                let ci: usize = t[3][1..].parse().map_err(|_| "len: chunk index")?;
+                let mut f = bin_parse(raw);
+                edit_u32(&mut f.chunks[ci].1, off, vi);
+                Ok(("bin".to_string(), bin_build(&f, ffmt)))
+            }
+        }
+        "splice" => Ok(("bin".to_string(), splice(fx, t[1], num(2)? as usize, num(3)? as usize, num(4)? as usize, num(5)? as usize))),
+        "rand" => {
+            let mut rng = Rng::new(num(3)?);
+            Ok((t[1].to_string(), random_input(t[1], num(2)?, &mut rng)))
+        }
+        "craft" => Ok(("bin".to_string(), crafted_bin(num(2)? as usize).1)),
+        "xtext" | "xattr" | "xtag" => {
+            let x = &fx.files["xml"][num(2)? as usize];
+            let idx = num(3)? as usize;
+            let which = num(4)? as usize;
+            let out = match kind {
+                "xtext" => {
+                    let texts: Vec<(usize, usize)> = xml_segments(x).into_iter().filter(|s| s.0 == Seg::Text).map(|s| (s.1, s.2)).collect();
+                    if texts.is_empty() {
+                        x.clone()
+                    } else {
+                        let (s, e) = texts[idx % texts.len()];
+                        let n = nasty_texts();
+                        [&x[..s], &n[which % n.len()][..], &x[e..]].concat()
+                    }
+                }
+                "xattr" => {
+                    let spans = xml_attr_spans(x);
+                    if spans.is_empty() {
+                        x.clone()
+                    } else {
+                        let (s, e) = spans[idx % spans.len()];
+                        let n = nasty_attrs();
+                        [&x[..s], &n[which % n.len()][..], &x[e..]].concat()
+                    }
+                }
+                _ => xml_tag_op(x, idx, which),
+            };
+            Ok((t[1].to_string(), out))
+        }
+        "xdoc" => Ok((t[1].to_string(), xml_special(num(2)? as usize).1)),
+        "nest" | "nestser" => Ok((format!("{kind}-{}", t[1]), be32(num(2)? as u32).to_vec())),
+        other => Err(format!("unknown job kind {other}")),
+    }
+}
+
+// ================================================================================ executing one input
+
+pub struct Exec {
+    pub cls: String,
+    pub show: String,
+    pub fails: Vec<(String, String)>,
+    pub input_len: usize,
+}
+
+fn check_common(t: &Tracked, input_len: usize, what: &str, fails: &mut Vec<(String, String)>) {
+    if let Out::Panic { file, line, msg } = &t.out {
+        fails.push((panic_key(file, *line, msg), format!("{what} panicked at {file}:{line}: {}", one_line(msg, 200))));
+    }
+    if let Some((size, site)) = &t.site {
+        fails.push((
+            site.clone(),
+            format!("{what} requested {size} bytes (largest single request {}, peak live {}) for an input of {input_len} bytes; allowed {} + {}*len", t.maxreq, t.peak, ALLOC_BASE, ALLOC_FACTOR),
+        ));
+    }
+}
+
+pub fn exec(fmt: &str, p: &[u8], fx: &Fixed) -> Exec {
+    let mut fails = Vec::new();
+    if let Some(dfmt) = fmt.strip_prefix("trunc-") {
+        let t = tracked(p.len(), || decode_plain(dfmt, p));
+        check_common(&t, p.len(), "decoding a strict prefix of a valid file", &mut fails);
+        if let Out::Ok(d) = &t.out {
+            let key = if p.is_empty() { format!("{dfmt}-empty-input-accepted") } else { format!("{dfmt}-prefix-accepted") };
+            fails.push((key, format!("a strict prefix ({} bytes) of a valid file decodes to Ok ({d})", p.len())));
+        }
+        return Exec { cls: t.out.cls(), show: t.out.show(), fails, input_len: p.len() };
+    }
+    if let Some(dfmt) = fmt.strip_prefix("deliv-") {
+        if p.len() < 9 {
+            return Exec { cls: "harness-error".into(), show: "short deliv payload".into(), fails, input_len: 0 };
+        }
+        let (mode, seed, b) = (p[0], rd_be64(&p[1..9]), &p[9..]);
+        let plain = tracked(b.len(), || decode_plain(dfmt, b));
+        let mut stats = (0u64, 0u64);
+        let deliv = tracked(b.len(), || {
+            let mut r = Deliver::new(b, mode, seed);
+            let res = decode_with(dfmt, &mut r);
+            stats = (r.reads, r.interrupts);
+            res
+        });
+        check_common(&plain, b.len(), "decoding (slice reader)", &mut fails);
+        check_common(&deliv, b.len(), "decoding (delivering reader)", &mut fails);
+        let same = match (&plain.out, &deliv.out) {
+            (Out::Panic { file: f1, line: l1, .. }, Out::Panic { file: f2, line: l2, .. }) => f1 == f2 && l1 == l2,
+            (a, b) => a == b,
+        };
+        if !same {
+            let kind = if mode >= 3 { "interrupted" } else { "short-reads" };
+            fails.push((
+                format!("{dfmt}-delivery-{kind}-differs"),
+                format!("reader mode {mode} ({} reads, {} Interrupted): slice reader gives `{}`, delivering reader gives `{}`", stats.0, stats.1, plain.out.show(), deliv.out.show()),
+            ));
+        }
+        let cls = if same { plain.out.cls() } else { format!("{}!differs", plain.out.cls()) };
+        return Exec { cls, show: format!("slice: {} / delivered: {}", plain.out.show(), deliv.out.show()), fails, input_len: b.len() };
+    }
+    if let Some(ffmt) = fmt.strip_prefix("sink-") {
+        if p.len() < 14 || !FFMTS.contains(&ffmt) || (p[1] as usize) >= fx.count(ffmt) {
+            return Exec { cls: "harness-error".into(), show: "bad sink payload".into(), fails, input_len: 0 };
+        }
+        let (mode, file, k, seed) = (p[0], p[1] as usize, rd_be32(&p[2..6]) as usize, rd_be64(&p[6..14]));
+        let full = &fx.files[ffmt][file];
+        let t = tracked(full.len(), || {
+            let mut s = Sink::new(k, mode, seed);
+            let r = if ffmt == "attr" { fx.attrs[file].1.to_writer(&mut s).map_err(|e| e.to_string()) } else { encode_dom(ffmt, &fx.doms[file].1, &mut s) };
+            r.map(|_| {
+                let mut got = s.got.clone();
+                if ffmt == "xml" {
+                    while got.last().map_or(false, |b| b.is_ascii_whitespace()) {
+                        got.pop();
+                    }
+                }
+                if &got == full {
+                    "complete".to_string()
+                } else {
+                    format!("incomplete:{}of{}", s.got.len(), full.len())
+                }
+            })
+        });
+        check_common(&t, full.len(), "serializing into a failing sink", &mut fails);
+        let name = fx.name(ffmt, file);
+        match (&t.out, mode) {
+            (Out::Ok(d), 0) | (Out::Ok(d), 1) => fails.push((
+                format!("{ffmt}-sink-{}-reported-ok", if mode == 0 { "error" } else { "zero" }),
+                format!("file `{name}`: the sink {} after {k} of {} bytes and the serializer returned Ok ({d})", if mode == 0 { "returned an io::Error" } else { "returned Ok(0)" }, full.len()),
+            )),
+            (Out::Ok(d), _) if d != "complete" => fails.push((format!("{ffmt}-sink-short-writes-lost"), format!("file `{name}`: sink accepting 1..7 bytes per write: serializer returned Ok but the output is {d}"))),
+            (Out::Err(e), 2) => fails.push((format!("{ffmt}-sink-short-writes-error"), format!("file `{name}`: sink accepting 1..7 bytes per write never fails, yet the serializer returned Err({})", one_line(e, 120)))),
+            _ => {}
+        }
+        return Exec { cls: t.out.cls(), show: t.out.show(), fails, input_len: full.len() };
+    }
+    if let Some(kind) = fmt.strip_prefix("nest-").or(fmt.strip_prefix("nestser-")) {
+        if p.len() < 4 {
+            return Exec { cls: "harness-error".into(), show: "bad nest payload".into(), fails, input_len: 0 };
+        }
+        let depth = rd_be32(p) as usize;
+        let ser = fmt.starts_with("nestser-");
+        let t = if ser {
+            let dom = nested_dom(depth);
+            let ffmt = if kind == "xml" { "xml" } else { "bin-none" };
+            let est = depth * 100 + 100;
+            let t = tracked(est, || {
+                let mut buf = Vec::new();
+                encode_dom(ffmt, &dom, &mut buf).map(|_| format!("bytes={}", buf.len()))
+            });
+            t
+        } else {
+            let b = if kind == "xml" { nested_xml(depth) } else { nested_bin(depth) };
+            let dfmt = if kind == "xml" { "xml" } else { "bin" };
+            tracked(b.len(), || decode_plain(dfmt, &b))
+        };
+        check_common(&t, depth * 100, &format!("{} {depth} nested instances", if ser { "serializing" } else { "decoding" }), &mut fails);
+        if let Out::Err(e) = &t.out {
+            fails.push((format!("{fmt}-rejected"), format!("{depth} nested instances: Err({})", one_line(e, 160))));
+        }
+        return Exec { cls: t.out.cls(), show: t.out.show(), fails, input_len: depth };
+    }
+    if let Some(what) = fmt.strip_prefix("selftest-") {
+        // exercises the harness's own detection paths (never generated by fault-run)
+        let t = tracked(p.len(), || match what {
+            "hang" => loop {
+                std::thread::sleep(Duration::from_millis(50));
+            },
+            "panic" => panic!("selftest panic"),
+            "overflow" => {
+                fn rec(n: u64) -> u64 {
+                    let a = [n; 64];
+                    if n == 0 { 0 } else { rec(n - 1) + std::hint::black_box(a)[3] }
+                }
+                Ok(format!("{}", rec(u64::MAX / 2)))
+            }
+            "alloc" => {
+                let v: Vec<u8> = Vec::with_capacity(3 << 30);
+                Ok(format!("{}", v.capacity()))
+            }
+            _ => Err("unknown selftest".into()),
+        });
+        check_common(&t, p.len(), "selftest", &mut fails);
+        return Exec { cls: t.out.cls(), show: t.out.show(), fails, input_len: p.len() };
+    }
+    if ["bin", "xml", "xmlu", "attr"].contains(&fmt) {
+        let t = tracked(p.len(), || decode_plain(fmt, p));
+        check_common(&t, p.len(), "decoding", &mut fails);
+        return Exec { cls: t.out.cls(), show: t.out.show(), fails, input_len: p.len() };
+    }
+    Exec { cls: "harness-error".into(), show: format!("unknown replay format {fmt}"), fails, input_len: 0 }
+}
+
+// ================================================================================ worker (fork server)
+
+static PROGRESS_MS: AtomicU64 = AtomicU64::new(0);
+static DONE: AtomicBool = AtomicBool::new(false);
+
+fn hang_secs() -> u64 {
+    std::env::var("FAULT_HANG_SECS").ok().and_then(|s| s.parse().ok()).unwrap_or(HANG_SECS)
+}
+
+fn raw_write(fd: i32, s: &str) {
+    let mut b = s.as_bytes();
+    while !b.is_empty() {
+        let n = unsafe { libc::write(fd, b.as_ptr() as *const libc::c_void, b.len()) };
+        if n <= 0 {
+            break;
+        }
+        b = &b[n as usize..];
+    }
+}
+
+/// runs jobs[skip..] on a watched job thread; never returns (exit 0 done, 86 hang, 3 harness error)
+fn child_run(jobs: &'static [String], fx: &'static Fixed, skip: usize, fd: i32, cur: &'static AtomicU64) -> ! {
+    let t0 = Instant::now();
+    PROGRESS_MS.store(0, Ordering::SeqCst);
+    CAP.store(ALLOC_CAP, Ordering::SeqCst);
+    NOTE_FD.store(fd, Ordering::SeqCst);
+    unsafe {
+        let lim = libc::rlimit { rlim_cur: RLIMIT_AS_BYTES, rlim_max: RLIMIT_AS_BYTES };
+        libc::setrlimit(libc::RLIMIT_AS, &lim);
+    }
+    let handle = std::thread::Builder::new()
+        .name("job".into())
+        .stack_size(JOB_STACK)
+        .spawn(move || {
+            let mut minlen: HashMap<String, usize> = HashMap::new();
+            for i in skip..jobs.len() {
+                cur.store(i as u64, Ordering::SeqCst);
+                CUR_JOB.store(i, Ordering::SeqCst);
+                PROGRESS_MS.store(t0.elapsed().as_millis() as u64, Ordering::SeqCst);
+                let mut text = String::new();
+                match materialize(&jobs[i], fx) {
+                    Err(e) => text.push_str(&format!("R\t{i}\tharness-error:{}\t0\t0\n", one_line(&e, 80))),
+                    Ok((fmt, payload)) => {
+                        let r = exec(&fmt, &payload, fx);
+                        for (key, msg) in &r.fails {
+                            let best = minlen.entry(key.clone()).or_insert(usize::MAX);
+                            let hex = if payload.len() < *best {
+                                *best = payload.len();
+                                val::hex(&payload)
+                            } else {
+                                "-".to_string()
+                            };
+                            text.push_str(&format!("F\t{i}\t{key}\t{}\t{fmt}\t{hex}\t{}\n", one_line(msg, 600), payload.len()));
+                        }
+                        text.push_str(&format!("R\t{i}\t{}\t{:016x}\t{}\n", r.cls, fnv(&payload) ^ fnv(fmt.as_bytes()), r.input_len));
+                    }
+                }
+                raw_write(fd, &text);
+            }
+            DONE.store(true, Ordering::SeqCst);
+        })
+        .expect("spawn job thread");
+    loop {
+        std::thread::sleep(Duration::from_millis(5));
+        if DONE.load(Ordering::SeqCst) {
+            unsafe { libc::_exit(0) }
+        }
+        if handle.is_finished() {
+            raw_write(2, "fault-child: job thread ended unexpectedly\n");
+            unsafe { libc::_exit(3) }
+        }
+        let idle = (t0.elapsed().as_millis() as u64).saturating_sub(PROGRESS_MS.load(Ordering::SeqCst));
+        if idle > hang_secs() * 1000 {
+            raw_write(fd, &format!("H\t{}\n", cur.load(Ordering::SeqCst)));
+            unsafe { libc::_exit(86) }
+        }
+    }
+}
+
+/// `fault-child JOBS RESULTS STDERR`: fork server.  Builds the fixed set once, then forks a child per
+/// crash; records `C idx signal stderr-excerpt` for the job a child died in.
+fn worker(jobs_path: &str, res_path: &str, err_path: &str) -> i32 {
+    install_hook();
+    unsafe {
+        let lim = libc::rlimit { rlim_cur: 0, rlim_max: 0 };
+        libc::setrlimit(libc::RLIMIT_CORE, &lim);
+    }
+    let jobs: &'static [String] = Box::leak(std::fs::read_to_string(jobs_path).expect("read jobs").lines().map(|s| s.to_string()).collect::<Vec<_>>().into_boxed_slice());
+    let fx: &'static Fixed = Box::leak(Box::new(Fixed::build()));
+    if !fx.problems.is_empty() {
+        eprintln!("fault-child: fixed set problems: {:?}", fx.problems);
+        return 3;
+    }
+    let _ = site_from_backtrace(); // warm the symbol cache before forking
+    let res = std::fs::OpenOptions::new().create(true).append(true).open(res_path).expect("open results");
+    use std::os::unix::io::AsRawFd;
+    let fd = res.as_raw_fd();
+    let cur: &'static AtomicU64 = unsafe {
+        let p = libc::mmap(std::ptr::null_mut(), 4096, libc::PROT_READ | libc::PROT_WRITE, libc::MAP_SHARED | libc::MAP_ANONYMOUS, -1, 0);
+        assert!(p != libc::MAP_FAILED);
+        &*(p as *const AtomicU64)
+    };
+    let mut skip = 0usize;
+    while skip < jobs.len() {
+        let err_off = std::fs::metadata(err_path).map(|m| m.len()).unwrap_or(0);
+        cur.store(skip as u64, Ordering::SeqCst);
+        let pid = unsafe { libc::fork() };
+        if pid < 0 {
+            eprintln!("fault-child: fork failed");
+            return 3;
+        }
+        if pid == 0 {
+            child_run(jobs, fx, skip, fd, cur);
+        }
+        let mut status: i32 = 0;
+        unsafe {
+            libc::waitpid(pid, &mut status, 0);
+        }
+        let at = cur.load(Ordering::SeqCst) as usize;
+        if libc::WIFEXITED(status) {
+            match libc::WEXITSTATUS(status) {
+                0 => break,
+                86 => skip = at + 1,
+                code => {
+                    raw_write(fd, &format!("C\t{at}\texit{code}\t{}\n", stderr_excerpt(err_path, err_off)));
+                    skip = at + 1;
+                }
+            }
+        } else {
+            let sig = if libc::WIFSIGNALED(status) { libc::WTERMSIG(status) } else { -1 };
+            raw_write(fd, &format!("C\t{at}\tsig{sig}\t{}\n", stderr_excerpt(err_path, err_off)));
+            skip = at + 1;
+        }
+    }
+    0
+}
+
+fn stderr_excerpt(path: &str, from: u64) -> String {
+    let all = std::fs::read(path).unwrap_or_default();
+    let tail = String::from_utf8_lossy(&all[(from as usize).min(all.len())..]).to_string();
+    let tail = tail.split("stack backtrace").next().unwrap_or("").to_string();
+    // thread ids differ from run to run
+    let mut out = String::new();
+    let mut inparen = false;
+    for c in tail.chars() {
+        if c == '(' {
+            inparen = true;
+        }
+        if !(inparen && c.is_ascii_digit()) {
+            out.push(c);
+        }
+        if c == ')' {
+            inparen = false;
+        }
+    }
+    one_line(out.trim(), 300)
+}
+
+// ================================================================================ parent: running job lists
+
+#[derive(Default, Clone)]
+pub struct JobRes {
+    pub cls: String,
+    pub hash: u64,
+    pub len: usize,
+    pub fails: Vec<Fail>,
+}
+#[derive(Clone)]
+pub struct Fail {
+    pub key: String,
+    pub msg: String,
+    pub fmt: String,
+    pub hex: Option<String>,
+    pub len: usize,
+}
+
+fn classify_crash(fmt: &str, how: &str, stderr: &str, note: Option<&(usize, String)>) -> (String, String, String) {
+    // -> (cls, key, message)
+    let side = if fmt.starts_with("nestser-") || fmt.starts_with("sink-") { "serializer" } else { "decoder" };
+    let short = if fmt.contains("xml") {
+        "xml"
+    } else if fmt.contains("bin") {
+        "bin"
+    } else {
+        "attr"
+    };
+    if stderr.contains("overflowed its stack") {
+        let key = if side == "serializer" { format!("{short}-ser-stack-overflow") } else { format!("{short}-stack-overflow") };
+        return ("abort:stack-overflow".into(), key, format!("the {side} overflowed the 8 MiB stack and the process aborted ({how}): {}", one_line(stderr, 160)));
+    }
+    if stderr.contains("memory allocation of") || note.is_some() {
+        let (size, site) = note.cloned().unwrap_or((0, "alloc-unattributed".into()));
+        return ("abort:alloc".into(), site, format!("the {side} requested {size} bytes in one allocation (refused by the probe: limit {} bytes) and the process aborted ({how}): {}", ALLOC_CAP, one_line(stderr, 120)));
+    }
+    (format!("abort:{how}"), format!("{short}-abort-{how}"), format!("the process died ({how}) inside the {side}: {}", one_line(stderr, 200)))
+}
+
+/// runs all jobs on `nworkers` worker processes; returns one result per job (in order)
+pub fn run_jobs(jobs: &[String], nworkers: usize, dir: &str, tag: &str, fx: &Fixed) -> Result<Vec<JobRes>, String> {
+    let exe = std::env::current_exe().map_err(|e| e.to_string())?;
+    let w = nworkers.max(1).min(jobs.len().max(1));
+    let mut maps: Vec<Vec<usize>> = vec![Vec::new(); w];
+    for i in 0..jobs.len() {
+        maps[i % w].push(i);
+    }
+    let mut children = Vec::new();
+    for k in 0..w {
+        let jp = format!("{dir}/{tag}.w{k}.jobs");
+        let rp = format!("{dir}/{tag}.w{k}.res");
+        let ep = format!("{dir}/{tag}.w{k}.err");
+        let text: String = maps[k].iter().map(|&i| format!("{}\n", jobs[i])).collect();
+        std::fs::write(&jp, text).map_err(|e| e.to_string())?;
+        let _ = std::fs::remove_file(&rp);
+        let errf = std::fs::OpenOptions::new().create(true).write(true).truncate(true).append(false).open(&ep).map_err(|e| e.to_string())?;
+        let errf = {
+            drop(errf);
+            std::fs::OpenOptions::new().append(true).open(&ep).map_err(|e| e.to_string())?
+        };
+        let child = std::process::Command::new(&exe)
+            .args(["fault-child", &jp, &rp, &ep])
+            .stdin(std::process::Stdio::null())
+            .stdout(std::process::Stdio::null())
+            .stderr(errf)
+            .spawn()
+            .map_err(|e| e.to_string())?;
+        children.push((child, rp, ep));
+    }
+    let mut out: Vec<JobRes> = vec![JobRes::default(); jobs.len()];
+    for (k, (mut child, rp, ep)) in children.into_iter().enumerate() {
+        let st = child.wait().map_err(|e| e.to_string())?;
+        if !st.success() {
+            return Err(format!("worker {k} of {tag} failed ({st}): {}", stderr_excerpt(&ep, 0)));
+        }
+        let text = std::fs::read_to_string(&rp).map_err(|e| format!("{rp}: {e}"))?;
+        let mut notes: HashMap<usize, (usize, String)> = HashMap::new();
+        for line in text.lines() {
+            let f: Vec<&str> = line.split('\t').collect();
+            if f.len() < 2 {
+                continue;
+            }
+            let li: usize = match f[1].parse() {
+                Ok(v) => v,
+                Err(_) => continue,
+            };
+            if li >= maps[k].len() {
+                continue;
+            }
+            let gi = maps[k][li];
+            match f[0] {
+                "R" if f.len() >= 5 => {
+                    out[gi].cls = f[2].to_string();
+                    out[gi].hash = u64::from_str_radix(f[3], 16).unwrap_or(0);
+                    out[gi].len = f[4].parse().unwrap_or(0);
+                }
+                "F" if f.len() >= 7 => out[gi].fails.push(Fail { key: f[2].into(), msg: f[3].into(), fmt: f[4].into(), hex: if f[5] == "-" && f[6] != "0" { None } else { Some(f[5].into()) }, len: f[6].parse().unwrap_or(0) }),
+                "N" if f.len() >= 5 => {
+                    notes.insert(li, (f[3].parse().unwrap_or(0), f[4].to_string()));
+                }
+                "H" | "C" => {
+                    let (fmt, payload) = materialize(&jobs[gi], fx)?;
+                    let (cls, key, msg) = if f[0] == "H" {
+                        let short = if fmt.contains("xml") { "xml" } else if fmt.contains("bin") { "bin" } else { "attr" };
+                        ("hang".to_string(), format!("{short}-hang"), format!("no result after {} s (watchdog); the worker was abandoned", hang_secs()))
+                    } else {
+                        classify_crash(&fmt, f.get(2).copied().unwrap_or("?"), f.get(3).copied().unwrap_or(""), notes.get(&li))
+                    };
+                    out[gi].cls = cls;
+                    out[gi].hash = fnv(&payload) ^ fnv(fmt.as_bytes());
+                    out[gi].len = payload.len();
+                    out[gi].fails.push(Fail { key, msg, fmt, hex: Some(val::hex(&payload)), len: payload.len() });
+                }
+                _ => {}
+            }
+        }
+    }
+    for (i, r) in out.iter().enumerate() {
+        if r.cls.is_empty() {
+            return Err(format!("job `{}` of {tag} has no result", jobs[i]));
+        }
+    }
+    Ok(out)
+}
+
+// ================================================================================ parent: job lists per tier
+
+pub struct Plan {
+    pub jobs: Vec<String>,
+    pub exhaustive: BTreeMap<String, bool>, // "fmt/sweep" -> every point of the sweep's domain is enumerated
+}
+
+fn sweep_of(job: &str) -> String {
+    let t: Vec<&str> = job.split_whitespace().collect();
+    let mut sweep = t.first().copied().unwrap_or("?");
+    if sweep == "sink" {
+        // mode 0 (io::Error) is swept over every offset; Ok(0) and short-write sinks are sampled
+        sweep = match t.get(3).copied() {
+            Some("1") => "sinkzero",
+            Some("2") => "sinkshort",
+            _ => "sink",
+        };
+    }
+    format!("{}/{}", t.get(1).copied().unwrap_or("?"), sweep)
+}
+
+pub fn plan(fx: &Fixed, tier: &str, seed: u64) -> Plan {
+    let thorough = tier == "thorough";
+    let mut rng = Rng::new(seed ^ 0xC13);
+    let mut jobs: Vec<String> = Vec::new();
+    let mut ex: BTreeMap<String, bool> = BTreeMap::new();
+    let mut mark = |jobs: &Vec<String>, from: usize, exhaustive: bool| {
+        for j in &jobs[from..] {
+            let e = ex.entry(sweep_of(j)).or_insert(exhaustive);
+            *e = *e && exhaustive;
+        }
+    };
+    // ---- a. truncation at every offset; c. failing sink at every offset
+    let from = jobs.len();
+    for ffmt in FFMTS {
+        for (fi, b) in fx.files[ffmt].iter().enumerate() {
+            for k in 0..b.len() {
+                jobs.push(format!("trunc {ffmt} {fi} {k}"));
+                jobs.push(format!("sink {ffmt} {fi} 0 {k}"));
+            }
+        }
+    }
+    mark(&jobs, from, true);
+    let from = jobs.len();
+    for ffmt in FFMTS {
+        for (fi, b) in fx.files[ffmt].iter().enumerate() {
+            let step = if thorough { 1 } else { 5 };
+            let start = if thorough { 0 } else { rng.below(step) as usize };
+            for k in (start..b.len()).step_by(step as usize) {
+                jobs.push(format!("sink {ffmt} {fi} 1 {k}"));
+            }
+            for s in 0..(if thorough { 8 } else { 2 }) {
+                jobs.push(format!("sink {ffmt} {fi} 2 {}", rng.below(1 << 30) + s));
+            }
+        }
+    }
+    mark(&jobs, from, false);
+    // ---- b. reader delivery
+    let from = jobs.len();
+    let dfmts = ["bin-none", "bin-lz4", "bin-zstd", "xml", "xmlu", "attr"];
+    for ffmt in dfmts {
+        let n = fx.count(file_fmt(ffmt));
+        for fi in 0..n {
+            for mode in 0..5 {
+                for _ in 0..(if thorough { 4 } else { 1 }) {
+                    jobs.push(format!("deliv {ffmt} {fi} 0 {mode} {}", rng.below(1 << 40)));
+                }
+            }
+        }
+        for _ in 0..(if thorough { 4000 } else { 250 }) {
+            jobs.push(format!("deliv {ffmt} {} {} {} {}", rng.below(n as u64), 1 + rng.below(1 << 40), rng.below(5), rng.below(1 << 40)));
+        }
+    }
+    mark(&jobs, from, false);
+    // ---- d. mutation streams
+    let from = jobs.len();
+    for ffmt in dfmts {
+        let n = fx.count(file_fmt(ffmt)) as u64;
+        for kind in ["flip", "subst"] {
+            for _ in 0..(if thorough { 150000 } else { 1500 }) {
+                jobs.push(format!("{kind} {ffmt} {} {}", rng.below(n), rng.below(1 << 48)));
+            }
+        }
+    }
+    for dfmt in ["bin", "attr", "xml", "xmlu"] {
+        for _ in 0..(if thorough { 300000 } else { 3000 }) {
+            jobs.push(format!("rand {dfmt} {} {}", rng.below(4), rng.below(1 << 48)));
+        }
+    }
+    mark(&jobs, from, false);
+    // length-field edits: container fields and every payload offset
+    for ffmt in ["bin-none", "bin-lz4", "bin-zstd"] {
+        let from = jobs.len();
+        for (fi, raw) in fx.files[ffmt].iter().enumerate() {
+            let f = bin_parse(raw);
+            let mut offs = vec![16usize, 20];
+            for (s, _) in &f.raw_spans {
+                offs.extend([s + 4, s + 8, s + 12]);
+            }
+            for o in offs {
+                for vi in 0..LEN_VALUES {
+                    jobs.push(format!("len {ffmt} {fi} raw {o} {vi}"));
+                }
+            }
+        }
+        mark(&jobs, from, true);
+        let from = jobs.len();
+        let full = thorough || ffmt == "bin-none";
+        for (fi, raw) in fx.files[ffmt].iter().enumerate() {
+            let f = bin_parse(raw);
+            for (ci, (_, data)) in f.chunks.iter().enumerate() {
+                for o in 0..data.len().saturating_sub(3) {
+                    for vi in 0..LEN_VALUES {
+                        if full || rng.below(12) == 0 {
+                            jobs.push(format!("len {ffmt} {fi} c{ci} {o} {vi}"));
+                        }
+                    }
+                }
+            }
+        }
+        // (raw and payload edits share the sweep name; exhaustive only if both are)
+        mark(&jobs, from, full);
+    }
+    let from = jobs.len();
+    for (fi, raw) in fx.files["attr"].iter().enumerate() {
+        for o in 0..raw.len().saturating_sub(3) {
+            for vi in 0..LEN_VALUES {
+                jobs.push(format!("len attr {fi} raw {o} {vi}"));
+            }
+        }
+    }
+    // chunk splicing / reordering / duplication
+    for ffmt in ["bin-none", "bin-lz4", "bin-zstd"] {
+        for (fi, raw) in fx.files[ffmt].iter().enumerate() {
+            let n = bin_parse(raw).chunks.len();
+            for a in 0..n {
+                for op in [0, 1, 5, 9] {
+                    jobs.push(format!("splice {ffmt} {fi} {op} {a} 0"));
+                }
+                for b in 0..n {
+                    jobs.push(format!("splice {ffmt} {fi} 2 {a} {b}"));
+                    jobs.push(format!("splice {ffmt} {fi} 6 {a} {b}"));
+                }
+                for b in 0..CHUNK_NAMES.len() {
+                    jobs.push(format!("splice {ffmt} {fi} 3 {a} {b}"));
+                }
+                for b in [0, 1, 2, 3, 4, 7, 15, 31] {
+                    jobs.push(format!("splice {ffmt} {fi} 4 {a} {b}"));
+                    jobs.push(format!("splice {ffmt} {fi} 8 {a} {b}"));
+                }
+                for b in 0..6 {
+                    jobs.push(format!("splice {ffmt} {fi} 7 {a} {b}"));
+                }
+            }
+        }
+    }
+    for n in 0..CRAFT_COUNT {
+        jobs.push(format!("craft bin {n}"));
+    }
+    // XML edits: every text node x every nasty text, every attribute value x every nasty value, every tag x every op
+    let (nt, na) = (nasty_texts().len(), nasty_attrs().len());
+    for (fi, x) in fx.files["xml"].iter().enumerate() {
+        let segs = xml_segments(x);
+        let texts = segs.iter().filter(|s| s.0 == Seg::Text).count();
+        let tags = segs.iter().filter(|s| s.0 == Seg::Tag).count();
+        let attrs = xml_attr_spans(x).len();
+        let mut flip = fi;
+        for (kind, count, opts) in [("xtext", texts, nt), ("xattr", attrs, na), ("xtag", tags, TAG_OPS)] {
+            for i in 0..count {
+                for o in 0..opts {
+                    if thorough {
+                        jobs.push(format!("{kind} xml {fi} {i} {o}"));
+                        jobs.push(format!("{kind} xmlu {fi} {i} {o}"));
+                    } else {
+                        flip += 1;
+                        jobs.push(format!("{kind} {} {fi} {i} {o}", if flip % 2 == 0 { "xml" } else { "xmlu" }));
+                    }
+                }
+            }
+        }
+    }
+    for n in 0..XDOC_COUNT {
+        jobs.push(format!("xdoc xml {n}"));
+        jobs.push(format!("xdoc xmlu {n}"));
+    }
+    mark(&jobs, from, true);
+    // deep nesting
+    let from = jobs.len();
+    for d in [200, 1000, 5000, 10000, 20000, 50000] {
+        jobs.push(format!("nest xml {d}"));
+        jobs.push(format!("nestser xml {d}"));
+    }
+    for d in [200, 1000, 5000, 20000, 200000] {
+        jobs.push(format!("nest bin {d}"));
+        jobs.push(format!("nestser bin {d}"));
+    }
+    mark(&jobs, from, false);
+    Plan { jobs, exhaustive: ex }
+}
+
+// ================================================================================ parent: fault-run
+
+fn json_str(s: &str) -> String {
+    serde_json::to_string(s).unwrap()
+}
+
+fn fault_run(args: &[String]) -> i32 {
+    let t0 = Instant::now();
+    install_hook();
+    let seed = arg_num(args, "--seed", 1);
+    let tier = arg_val(args, "--tier").unwrap_or("quick".into());
+    let pos: Vec<&String> = {
+        let mut v = Vec::new();
+        let mut i = 2;
+        while i < args.len() {
+            if args[i] == "--seed" || args[i] == "--tier" || args[i] == "--workers" {
+                i += 2;
+            } else {
+                v.push(&args[i]);
+                i += 1;
+            }
+        }
+        v
+    };
+    if pos.len() < 3 {
+        eprintln!("usage: fault-run --seed S --tier quick|thorough OBS ORACLE STATS");
+        return 2;
+    }
+    let (obs_p, orc_p, st_p) = (pos[0], pos[1], pos[2]);
+    let nworkers = arg_num(args, "--workers", std::thread::available_parallelism().map(|n| n.get() as u64).unwrap_or(4).min(16)) as usize;
+    let fx = Fixed::build();
+    if !fx.problems.is_empty() {
+        for p in &fx.problems {
+            eprintln!("fault-run: fixed set: {p}");
+        }
+        return 3;
+    }
+    let plan = plan(&fx, &tier, seed);
+    let dir = format!("{}.work", st_p);
+    let _ = std::fs::remove_dir_all(&dir);
+    std::fs::create_dir_all(&dir).expect("work dir");
+    let res = match run_jobs(&plan.jobs, nworkers, &dir, "run", &fx) {
+        Ok(r) => r,
+        Err(e) => {
+            eprintln!("fault-run: {e}");
+            return 3;
+        }
+    };
+    // ---- aggregate
+    struct Sweep {
+        jobs: u64,
+        fails: u64,
+        classes: BTreeMap<String, u64>,
+        distinct: HashSet<u64>,
+    }
+    struct KeyInfo {
+        count: u64,
+        best: Option<(usize, String, String, String, String)>, // len, fmt, hex, case, msg
+        first_msg: String,
+        sweeps: BTreeMap<String, u64>,
+    }
+    let mut sweeps: BTreeMap<String, Sweep> = BTreeMap::new();
+    let mut keys: BTreeMap<String, KeyInfo> = BTreeMap::new();
+    let mut distinct: HashSet<u64> = HashSet::new();
+    for (job, r) in plan.jobs.iter().zip(&res) {
+        let sw = sweep_of(job);
+        let s = sweeps.entry(sw.clone()).or_insert(Sweep { jobs: 0, fails: 0, classes: BTreeMap::new(), distinct: HashSet::new() });
+        s.jobs += 1;
+        *s.classes.entry(r.cls.clone()).or_insert(0) += 1;
+        s.distinct.insert(r.hash);
+        if r.len > 0 {
+            distinct.insert(r.hash);
+        }
+        if !r.fails.is_empty() {
+            s.fails += 1;
+        }
+        for f in &r.fails {
+            let k = keys.entry(f.key.clone()).or_insert(KeyInfo { count: 0, best: None, first_msg: f.msg.clone(), sweeps: BTreeMap::new() });
+            k.count += 1;
+            *k.sweeps.entry(sw.clone()).or_insert(0) += 1;
+            if let Some(hex) = &f.hex {
+                if k.best.as_ref().map_or(true, |b| f.len < b.0) {
+                    k.best = Some((f.len, f.fmt.clone(), hex.clone(), job.replace(' ', ":"), f.msg.clone()));
+                }
+            }
+        }
+    }
+    let mut obs = String::new();
+    for (name, s) in &sweeps {
+        let (fmt, sweep) = name.split_once('/').unwrap();
+        let total = |p: &str| s.classes.iter().filter(|(k, _)| k.starts_with(p)).map(|(_, v)| *v).sum::<u64>();
+        obs.push_str(&format!(
+            "{fmt} {sweep} jobs={} distinct={} ok={} err={} panic={} hang={} abort={} failing={} exhaustive={} |",
+            s.jobs,
+            s.distinct.len(),
+            total("ok"),
+            total("err:"),
+            total("panic:"),
+            total("hang"),
+            total("abort:"),
+            s.fails,
+            if *plan.exhaustive.get(name).unwrap_or(&false) { "yes" } else { "no" }
+        ));
+        let mut cl: Vec<(&String, &u64)> = s.classes.iter().collect();
+        cl.sort_by(|a, b| b.1.cmp(a.1).then(a.0.cmp(b.0)));
+        for (c, n) in cl.iter().take(12) {
+            obs.push_str(&format!(" {c}={n}"));
+        }
+        obs.push('\n');
+    }
+    std::fs::write(obs_p, obs).expect("write OBS");
+    let mut orc = String::new();
+    let mut kjson = Vec::new();
+    for (key, k) in &keys {
+        let (len, fmt, hex, case, msg) = k.best.clone().unwrap_or((0, "?".into(), "-".into(), "?".into(), k.first_msg.clone()));
+        orc.push_str(&format!("{case} C13 {key} {} [count={} smallest-input={} bytes format={}]\n", one_line(&msg, 500), k.count, len, fmt));
+        let sw: Vec<String> = k.sweeps.iter().map(|(s, n)| format!("{}:{}", json_str(s), n)).collect();
+        kjson.push(format!(
+            "{}:{{\"count\":{},\"format\":{},\"len\":{},\"case\":{},\"message\":{},\"sweeps\":{{{}}},\"hex\":{}}}",
+            json_str(key),
+            k.count,
+            json_str(&fmt),
+            len,
+            json_str(&case),
+            json_str(&msg),
+            sw.join(","),
+            json_str(&hex)
+        ));
+    }
+    std::fs::write(orc_p, orc).expect("write ORACLE");
+    let sjson: Vec<String> = sweeps
+        .iter()
+        .map(|(name, s)| {
+            let cl: Vec<String> = s.classes.iter().map(|(c, n)| format!("{}:{}", json_str(c), n)).collect();
+            format!(
+                "{}:{{\"jobs\":{},\"distinct\":{},\"failing\":{},\"exhaustive\":{},\"classes\":{{{}}}}}",
+                json_str(name),
+                s.jobs,
+                s.distinct.len(),
+                s.fails,
+                plan.exhaustive.get(name).unwrap_or(&false),
+                cl.join(",")
+            )
+        })
+        .collect();
+    let files: Vec<String> = FFMTS
+        .iter()
+        .map(|f| format!("{}:[{}]", json_str(f), fx.files[f].iter().enumerate().map(|(i, b)| format!("[{},{}]", json_str(fx.name(f, i)), b.len())).collect::<Vec<_>>().join(",")))
+        .collect();
+    let stats = format!(
+        "{{\"seed\":{seed},\"tier\":{},\"workers\":{nworkers},\"wall_s\":{:.1},\"evaluations\":{},\"distinct_nontrivial\":{},\"failing_keys\":{},\"fixed_set\":{{{}}},\"sweeps\":{{{}}},\"keys\":{{{}}}}}\n",
+        json_str(&tier),
+        t0.elapsed().as_secs_f64(),
+        plan.jobs.len(),
+        distinct.len(),
+        keys.len(),
+        files.join(","),
+        sjson.join(","),
+        kjson.join(",")
+    );
+    std::fs::write(st_p, stats).expect("write STATS");
+    if std::env::var("FAULT_KEEP").is_err() {
+        let _ = std::fs::remove_dir_all(&dir);
+    }
+    0
+}
+
+fn fault_replay(args: &[String]) -> i32 {
+    install_hook();
+    if args.len() < 4 {
+        eprintln!("usage: fault-replay <format> <hex | @file>");
+        return 2;
+    }
+    let fmt = &args[2];
+    let hex = if let Some(p) = args[3].strip_prefix('@') { std::fs::read_to_string(p).expect("read hex file").trim().to_string() } else { args[3].clone() };
+    let fx = Fixed::build();
+    if !fx.problems.is_empty() {
+        eprintln!("fault-replay: fixed set problems: {:?}", fx.problems);
+        return 3;
+    }
+    let dir = std::env::temp_dir().join(format!("rbxverif-fault-{}", std::process::id()));
+    std::fs::create_dir_all(&dir).unwrap();
+    let jobs = vec![format!("replay {fmt} {hex}")];
+    let r = run_jobs(&jobs, 1, dir.to_str().unwrap(), "replay", &fx);
+    let _ = std::fs::remove_dir_all(&dir);
+    match r {
+        Err(e) => {
+            println!("harness error: {e}");
+            3
+        }
+        Ok(res) => {
+            println!("format: {fmt}   input: {} bytes", res[0].len);
+            println!("outcome: {}", res[0].cls);
+            for f in &res[0].fails {
+                println!("FAIL C13 {} {}", f.key, f.msg);
+            }
+            if res[0].fails.is_empty() {
+                println!("verdict: pass");
+                0
+            } else {
+                1
+            }
+        }
+    }
+}
+
+pub fn cli(args: &[String]) -> bool {
+    let cmd = args.get(1).map(|s| s.as_str()).unwrap_or("");
+    let code = match cmd {
+        "fault-run" => fault_run(args),
+        "fault-child" => worker(&args[2], &args[3], &args[4]),
+        "fault-replay" => fault_replay(args),
+        "fault-fixed" => {
+            // prints the fixed set (name, sizes) and any set-up problem
+            install_hook();
+            let fx = Fixed::build();
+            for f in FFMTS {
+                for (i, b) in fx.files[f].iter().enumerate() {
+                    println!("{f} {i} {} {} bytes", fx.name(f, i), b.len());
+                }
+            }
+            for p in &fx.problems {
+                println!("PROBLEM {p}");
+            }
+            if let Some(p) = args.get(2) {
+                let (f, i) = p.split_once('/').unwrap();
+                std::io::stdout().write_all(&fx.files[f][i.parse::<usize>().unwrap()]).unwrap();
+            }
+            if fx.problems.is_empty() { 0 } else { 3 }
+        }
+        _ => return false,
+    };
+    if code != 0 {
+        std::process::exit(code);
+    }
+    true
+}
